@@ -41,16 +41,16 @@ def _mutate(name):
         ct.BaseTemplate.digest = ns['digest']
         return
     if name == 'empty_tag_shares_scope':
-        from chameleon import parser as ps
+        from chameleon import parser as parser_module
         import inspect
         import textwrap
-        src_fn = ps.ElementParser.visit_empty_tag
+        src_fn = parser_module.ElementParser.visit_empty_tag
         code = textwrap.dedent(inspect.getsource(src_fn)).replace('namespace = self.namespaces[-1].copy()',
                                                                   'namespace = self.namespaces[-1]')
         assert code != textwrap.dedent(inspect.getsource(src_fn))
         ns = dict(src_fn.__globals__)
         exec(code, ns)
-        ps.ElementParser.visit_empty_tag = ns['visit_empty_tag']
+        parser_module.ElementParser.visit_empty_tag = ns['visit_empty_tag']
         return
     if name == 'TextSE_narrow':       # lexer no longer accepts '&' in text
         tk.re_xml_spe = re.compile(tk.collector.res['XML_SPE'].replace('[^<]+|', '[^<&]+|', 1))
